@@ -23,6 +23,9 @@ type E2ECase struct {
 	FailTimes   int  `json:"fail_times"` // the first execution fails this many times before it succeeds
 	GapMs       int  `json:"gap_ms"`     // pause between injected ticks (0 = burst)
 	SharedQueue bool `json:"shared_queue"`
+	// Queues: the limited hook has this many schedule bindings, each in a queue of its own (0 or 1: one binding);
+	// every injected tick round fires all of them. The limit is per hook, not per queue.
+	Queues int `json:"queues,omitempty"`
 }
 
 func genE2E(t *rapid.T) E2ECase {
@@ -34,6 +37,7 @@ func genE2E(t *rapid.T) E2ECase {
 		FailTimes:   rapid.SampledFrom([]int{0, 0, 1, 3, 4}).Draw(t, "fails"),
 		GapMs:       rapid.SampledFrom([]int{0, 0, 20, 100}).Draw(t, "gap"),
 		SharedQueue: rapid.Bool().Draw(t, "shared"),
+		Queues:      rapid.SampledFrom([]int{1, 1, 2, 3}).Draw(t, "queues"),
 	}
 }
 
@@ -49,6 +53,10 @@ func runE2E(c E2ECase) (ev.Info, error) {
 		q = ""
 	}
 	d := hcfg.D{Schedules: []hcfg.Sched{{Name: "tick", Crontab: "0 0 1 1 *", Queue: q}}}
+	extraCrontabs := []string{"0 0 3 1 *", "0 0 4 1 *"}
+	for j := 1; j < c.Queues && j <= 2; j++ {
+		d.Schedules = append(d.Schedules, hcfg.Sched{Name: fmt.Sprintf("tick%d", j), Crontab: extraCrontabs[j-1], Queue: fmt.Sprintf("qx%d", j)})
+	}
 	if c.HasSettings {
 		d.Settings = &hcfg.Settings{Interval: fmt.Sprintf("%dms", c.IntervalMs), Burst: c.Burst}
 	}
@@ -66,7 +74,7 @@ func runE2E(c E2ECase) (ev.Info, error) {
 	if !env.WaitIdle(3*time.Millisecond, 20*time.Second) {
 		return info, fmt.Errorf("harness: operator did not become idle after start")
 	}
-	for _, qn := range []string{"main", "q1"} {
+	for _, qn := range []string{"main", "q1", "qx1", "qx2"} {
 		if tq := env.Op.TaskQueues.GetByName(qn); tq != nil {
 			real := tq.ExponentialBackoffFn
 			tq.ExponentialBackoffFn = func(n int) time.Duration {
@@ -79,6 +87,9 @@ func runE2E(c E2ECase) (ev.Info, error) {
 	}
 	for i := 0; i < c.Ticks; i++ {
 		env.Tick("0 0 1 1 *")
+		for j := 1; j < c.Queues && j <= 2; j++ {
+			env.Tick(extraCrontabs[j-1])
+		}
 		if i%2 == 0 {
 			env.Tick("0 0 2 1 *")
 		}
@@ -114,6 +125,9 @@ func runE2E(c E2ECase) (ev.Info, error) {
 	if c.FailTimes >= 3 {
 		info.Labels = append(info.Labels, "retries>=3")
 	}
+	if c.Queues > 1 {
+		info.Labels = append(info.Labels, "bindings-in-several-queues")
+	}
 	for i := 0; i < len(starts); i++ {
 		for j := i + 1; j < len(starts); j++ {
 			T := time.Duration(starts[j] - starts[i])
@@ -127,7 +141,7 @@ func runE2E(c E2ECase) (ev.Info, error) {
 	return info, nil
 }
 
-const ruleE2E = "the real operator with a scripted hook carrying settings (executionMinInterval 200-400ms, executionBurst 1-2, or none) in its own or the main queue (shared with an unthrottled hook); 2-6 ticks injected as a burst or with gaps; the first execution fails 0-4 times and is retried; execution starts are taken from the hook's own log; oracle: every window of starts satisfies count <= B + ceil(T/I) + 1 (one token of slack for timer lateness; the exact bound is decided on synthetic time by the limiter part). Real clock, sampled. Non-trivial: >= B+2 executions of a limited hook."
+const ruleE2E = "the real operator with a scripted hook carrying settings (executionMinInterval 200-400ms, executionBurst 1-2, or none) in its own or the main queue (shared with an unthrottled hook), in half of the cases with 2-3 schedule bindings in queues of their own (the limit is per hook); 2-6 tick rounds injected as a burst or with gaps; the first execution fails 0-4 times and is retried; execution starts are taken from the hook's own log; oracle: every window of starts satisfies count <= B + ceil(T/I) + 1 (one token of slack for timer lateness; the exact bound is decided on synthetic time by the limiter part). Real clock, sampled. Non-trivial: >= B+2 executions of a limited hook."
 
 func TestE2E(t *testing.T) {
 	ev.Main(t, ev.Spec[E2ECase]{Property: "C18", Part: "e2e", Rule: ruleE2E, Gen: genE2E, Run: runE2E, Journal: true})
